@@ -91,6 +91,7 @@ type Run struct {
 	lastPanic    string
 	stamp        int
 	monitor      bool
+	shareUsed    bool
 	curOp        string
 }
 
